@@ -36,6 +36,7 @@ def build(tier, seed):
     drain("S12", S12, 3, 1, 2)
     if quick:
         first("S22", S22, 1, 2, n=2)
+        first("S22", S22, 2, 1, n=2)      # prefix shorter than the keys: the first match may sit in the block AFTER the one the index picks
         first("S22", S22, 3, 1, 2, n=2)
         first("S0k", S0k, 2, 0, n=2)
     else:
